@@ -139,7 +139,7 @@ def _transform(cls, tx):
     return fn, lo, hi
 
 
-def _density(cls, name, callee, kwargs):
+def _density(cls, name, callee, kwargs, optional=()):
     """`self.check_fit(); transformed = self._transform_to_normal(X); return stats.multivariate_normal.<callee>(
     transformed, cov=self.correlation[, allow_singular=<bool>])` -> dict of extracted bool keywords."""
     fn = find_method(cls, name)
@@ -160,11 +160,11 @@ def _density(cls, name, callee, kwargs):
         raise Untranslatable(f'{GC_FILE}:{ret.lineno}', f'{name}: expected one positional argument')
     _expect(call.args[0], 'transformed', where, 'quantile argument')
     kws = {k.arg: k.value for k in call.keywords}
-    if sorted(kws) != sorted(['cov'] + kwargs):
-        raise Untranslatable(f'{GC_FILE}:{ret.lineno}', f'{name}: keywords {sorted(kws)} != {sorted(["cov"] + kwargs)}')
+    if not (set(['cov'] + kwargs) <= set(kws) <= set(['cov'] + kwargs + list(optional))) or len(kws) != len(call.keywords):
+        raise Untranslatable(f'{GC_FILE}:{ret.lineno}', f'{name}: keywords {sorted(kws)} not cov + {kwargs} (+ optional {list(optional)})')
     _expect(kws['cov'], 'self.correlation', where, 'cov= (must be the STORED correlation)')
-    out = {}
-    for k in kwargs:
+    out = {k: 'false' for k in optional}      # scipy's default: allow_singular=False
+    for k in [k for k in kws if k != 'cov']:
         v = kws[k]
         if not (isinstance(v, ast.Constant) and isinstance(v.value, bool)):
             raise Untranslatable(f'{GC_FILE}:{ret.lineno}', f'{name}: {k}= is not a bool literal')
@@ -215,7 +215,7 @@ def generate(repo):
     report.append((GC_FILE, '_transform_to_normal', ttn.lineno, ttn.end_lineno))
     pdf, pdf_kw = _density(cls, 'probability_density', 'pdf', ['allow_singular'])
     report.append((GC_FILE, 'probability_density', pdf.lineno, pdf.end_lineno))
-    cdf, _ = _density(cls, 'cumulative_distribution', 'cdf', [])
+    cdf, cdf_kw = _density(cls, 'cumulative_distribution', 'cdf', [], optional=['allow_singular'])
     report.append((GC_FILE, 'cumulative_distribution', cdf.lineno, cdf.end_lineno))
     _not_overridden(cls, ('log_probability_density', 'pdf', 'cdf'))
     _base(repo, report)
@@ -320,13 +320,17 @@ def probabilityDensity (checkFit : Except Err Unit) (transformToNormal : X → E
   let transformed ← transformToNormal x
   mvnPdf transformed selfCorrelation {pdf_kw['allow_singular']}
 
+/-- the `allow_singular` flag of the `multivariate_normal.cdf` call (scipy's default `False` when absent). -/
+def cdfAllowSingular : Bool := {cdf_kw['allow_singular']}
+
 /-- `GaussianMultivariate.cumulative_distribution` ({GC_FILE}:{cdf.lineno}-{cdf.end_lineno}):
-    `stats.multivariate_normal.cdf(transformed, cov=self.correlation)`. -/
+    `stats.multivariate_normal.cdf(transformed, cov=self.correlation)`; the flag is `allow_singular`
+    (scipy's default `False` when the keyword is absent). -/
 def cumulativeDistribution (checkFit : Except Err Unit) (transformToNormal : X → Except Err M)
-    (mvnCdf : M → C → Except Err R) (selfCorrelation : C) (x : X) : Except Err R := do
+    (mvnCdf : M → C → Bool → Except Err R) (selfCorrelation : C) (x : X) : Except Err R := do
   checkFit
   let transformed ← transformToNormal x
-  mvnCdf transformed selfCorrelation
+  mvnCdf transformed selfCorrelation cdfAllowSingular
 
 /-- `Multivariate.log_probability_density`: `return np.log(self.probability_density(X))`. -/
 def logProbabilityDensity (npLog : R → R) (probabilityDensity : X → Except Err R) (x : X) : Except Err R := do
